@@ -15,6 +15,7 @@ Definition tail_end (th ne : option (list tk)) (r : list tk) : dres (tail * list
   match r with
   | t :: r1 =>
       if is T_ARROW t then DErr 4
+      else if is T_requires t then DErr 4          (* a requires-clause may follow the exception specification *)
       else if is LBRACE t then
         match discard kty LBRACE RBRACE 1 r1 with
         | Ok r2 => DOk (mkTail th ne true false, r2)
@@ -126,9 +127,10 @@ Lemma tail_end_rt th ne en rest :
 Proof.
   destruct en as [|soup|]; cbn [ending_toks app]; intros H.
   - destruct rest as [|t r]; [reflexivity|].
-    destruct (decl_follow_inv t r H) as (H1 & H2 & H3 & _).
-    cbn [tail_end]. now rewrite H1, H2, H3.
-  - cbn [tail_end]. change (is T_ARROW (ktok LBRACE)) with false. change (is LBRACE (ktok LBRACE)) with true. cbn iota.
+    destruct (decl_follow_inv t r H) as (H1 & H2 & H3 & _ & _ & _ & H7).
+    cbn [tail_end]. now rewrite H1, H7, H2, H3.
+  - cbn [tail_end]. change (is T_ARROW (ktok LBRACE)) with false. change (is T_requires (ktok LBRACE)) with false.
+    change (is LBRACE (ktok LBRACE)) with true. cbn iota.
     rewrite <- app_assoc. cbn [app].
     rewrite (discard_exact tk kty LBRACE RBRACE soup (ktok RBRACE) rest ltac:(discriminate) H eq_refl). reflexivity.
   - reflexivity.
